@@ -45,6 +45,10 @@ type mframe struct {
 	status     rt.RuntimeContextStatus
 	softStop   bool
 	startMs    uint64
+	// tracked tells for cpu and memory whether a limit of that kind - hard or soft, the frame's own or
+	// inherited - is in force (a time limit counts for cpu: the clock is sampled while charging cpu).
+	// Only then does the frame keep count: used of an unlimited resource is not specified.
+	tracked [2]bool
 }
 
 func resArr(r rt.RuntimeResources) [3]uint64 { return [3]uint64{r.Cpu, r.Memory, r.Millis} }
@@ -129,7 +133,7 @@ func runCtx(ctx *core.RunCtx) {
 		u := resArr(c.UsedResources())
 		h := resArr(c.HardLimits())
 		for x := 0; x < 2; x++ {
-			if new(big.Int).SetUint64(u[x]).Cmp(f.used[x]) != 0 {
+			if f.tracked[x] && new(big.Int).SetUint64(u[x]).Cmp(f.used[x]) != 0 {
 				fail("C07.I4", "used-mismatch:"+resNames[x], "after %s: context reports used.%s=%d, the ledger says %s", op, resNames[x], u[x], f.used[x])
 				return false
 			}
@@ -196,9 +200,17 @@ func runCtx(ctx *core.RunCtx) {
 			}
 			def.HardLimits = rt.RuntimeResources{Cpu: limitPool(g, rem[0]), Memory: limitPool(g, rem[1])}
 			if parent == nil {
-				// the outermost frame always has finite cpu and memory limits, so every frame tracks both
+				// the outermost frame usually has finite cpu and memory limits, so every frame tracks both;
+				// in a quarter of the runs it has none, and soft limits (or limits further in) are the only
+				// reason to keep count
 				def.HardLimits.Cpu = 1000 + uint64(g.Choose(200000))
 				def.HardLimits.Memory = 1000 + uint64(g.Choose(200000))
+				switch g.Choose(8) {
+				case 0:
+					def.HardLimits = rt.RuntimeResources{}
+				case 1:
+					def.HardLimits.Memory = 0
+				}
 			}
 			if g.Chance(1, 4) {
 				def.HardLimits.Millis = []uint64{1, 5, 50, 1000, 1 << 40}[g.Choose(5)]
@@ -266,6 +278,12 @@ func runCtx(ctx *core.RunCtx) {
 					return
 				}
 			}
+			timed := nf.hard[2].Cmp(inf) != 0 || nf.soft[2].Cmp(inf) != 0
+			nf.tracked[0] = nf.hard[0].Cmp(inf) != 0 || nf.soft[0].Cmp(inf) != 0 || timed
+			nf.tracked[1] = nf.hard[1].Cmp(inf) != 0 || nf.soft[1].Cmp(inf) != 0
+			if !nf.tracked[0] || !nf.tracked[1] {
+				ctx.Count("frames with an uncounted resource", 1)
+			}
 			nf.flags = def.RequiredFlags
 			if parent != nil {
 				nf.flags |= parent.flags
@@ -303,7 +321,12 @@ func runCtx(ctx *core.RunCtx) {
 			parent := cur()
 			if parent != nil {
 				for x := 0; x < 2; x++ {
-					parent.used[x] = new(big.Int).Add(parent.used[x], child.used[x])
+					if parent.tracked[x] && child.tracked[x] {
+						parent.used[x] = new(big.Int).Add(parent.used[x], child.used[x])
+						if !parent.used[x].IsUint64() {
+							parent.used[x] = new(big.Int).SetUint64(^uint64(0)) // saturates
+						}
+					}
 				}
 			}
 			if term {
@@ -330,7 +353,7 @@ func runCtx(ctx *core.RunCtx) {
 			}
 			ru := resArr(ret.UsedResources())
 			for x := 0; x < 2; x++ {
-				if new(big.Int).SetUint64(ru[x]).Cmp(child.used[x]) != 0 {
+				if child.tracked[x] && new(big.Int).SetUint64(ru[x]).Cmp(child.used[x]) != 0 {
 					fail("C07.I4", "popped-used:"+resNames[x], "popped context reports used.%s=%d, ledger says %s", resNames[x], ru[x], child.used[x])
 					return
 				}
@@ -353,6 +376,12 @@ func runCtx(ctx *core.RunCtx) {
 				return
 			}
 			sum := new(big.Int).Add(f.used[x], new(big.Int).SetUint64(n))
+			if !f.tracked[x] {
+				sum = f.used[x] // nothing limits this resource here: not counted
+			}
+			if !sum.IsUint64() {
+				sum = new(big.Int).SetUint64(^uint64(0)) // the counters are 64 bits wide and saturate (only reachable without a hard limit)
+			}
 			mustKill := sum.Cmp(f.hard[x]) >= 0
 			timeKill := false
 			if x == 0 && !mustKill && f.hard[2].Cmp(inf) != 0 && new(big.Int).Sub(f.hard[2], elapsed(f)).Sign() <= 0 {
@@ -378,7 +407,7 @@ func runCtx(ctx *core.RunCtx) {
 				return
 			default:
 				f.used[x] = sum
-				if x == 1 {
+				if x == 1 && f.tracked[1] {
 					f.held = new(big.Int).Add(f.held, new(big.Int).SetUint64(n))
 				}
 			}
